@@ -184,6 +184,21 @@ def run(spec, ctx):
             cases.append((["q", "$", [["child", [["filter", e]]]]], [{}, {"a": 1}, {"b": 1}, {"a": 1, "b": 1}, {"a": None}, {"a": None, "b": None}, {"a": 1, "b": 2}, {"a": "x", "b": "y"}, {"a": "x", "b": 1}]))
             e = ["cmp", op, ["sq", ["q", "@", Q(["index", 0])]], ["sq", ["q", "@", Q(["index", -1])]]]
             cases.append((["q", "$", [["child", [["filter", e]]]]], [[], [1], [1, 2], [2, 1], ["a", "b"], [True, 1], [1, True], [[1], [1]], [[1], [True]]]))
+        # equal containers held in different Mapping / Sequence implementations on the two sides
+        import copy as _copy
+
+        conts = [[1, 2], [], {"k": [1, 2]}, {}, [[1], {"a": None}], {"a": {"b": [True]}}, [1.0, "x"]]
+        plain_doc = [{"v": c, "w": _copy.deepcopy(c), "id": i} for i, c in enumerate(conts)] + [{"v": [1, 2], "w": [2, 1], "id": 90}, {"v": {"k": 1}, "w": {"k": True}, "id": 91}]
+        for side in ("w", "v"):
+            impl_doc = [dict(e, **{side: gen.exotic(e[side], r, p=1.0)}) for e in plain_doc]
+            for op in OPS:
+                for a, b in (("v", "w"), ("w", "v")):
+                    ast = ["q", "$", [["child", [["filter", ["cmp", op, ["sq", ["q", "@", Q(["name", a])]], ["sq", ["q", "@", Q(["name", b])]]]]]]]]
+                    check_query_case(ctx, ast, plain_doc, rr.top(ast), "directed:other-container-types", nontrivial=True, impl_doc=impl_doc)
+                lhs = ["call", "value", [["nodes", ["q", "@", Q(["name", "v"])]]]]
+                rhs = ["sq", ["q", "$", Q(["index", 0], ["name", "w"])]]
+                ast = ["q", "$", [["child", [["filter", ["cmp", op, lhs, rhs]]]]]]
+                check_query_case(ctx, ast, plain_doc, rr.top(ast), "directed:other-container-types", nontrivial=True, impl_doc=impl_doc)
         for ast, doc in cases:
             for _ in range(3):
                 check_query_case(ctx, ast, doc, rr.top(ast), "directed", nontrivial=True)
@@ -219,7 +234,9 @@ def run(spec, ctx):
                 if text in seen:
                     continue
                 seen.add(text)
-                if r.random() < 0.3:
+                if r.random() < 0.12:
+                    check_query_case(ctx, ast, doc, text, "random:other-container-types", nontrivial=nontrivial, model=model, sample_p=0.001, impl_doc=gen.exotic(doc, r))
+                elif r.random() < 0.3:
                     name, env = r.choice(equivalent_envs())
                     ctx.cell("configurations", name)
                     check_query_case(ctx, ast, doc, text, "random:" + name, nontrivial=nontrivial, model=model, sample_p=0.001, env=env)
